@@ -1,5 +1,6 @@
 (* C04 — every explicitly formatted record decodes under the RP66 component grammar. Statements only. *)
 From DV Require Import Model.EflrReader Model.Builder Model.Write Proofs.EflrP Proofs.BuilderP Proofs.WriteP.
+From DV Require Import Model.ApiDispatch Model.FileReader Proofs.FileP.
 
 (* Every non-empty set whose attribute states are count-consistent (wf_set; guaranteed by the attribute converters)
    is decoded by the strict component reader (Model/EflrReader.v: SET, template of labelled ATTRIB components, OBJECT
@@ -50,8 +51,18 @@ Example C04_ex :
   exists b d, enc_set s = OK b /\ dec_set b = Some d /\ template_ok d = true /\ length (ds_objs d) = 1%nat.
 Proof. eexists. eexists. split; [vm_compute; reflexivity|]. split; [vm_compute; reflexivity|]. split; reflexivity. Qed.
 
+(* END TO END over the modelled API: after any sequence of API calls and earlier writes (run_actions from the empty
+   file), whatever DLISFile.write returns — for any write options and either mode — is accepted by the complete strict reader: framing, reassembly, and the component grammar of EVERY explicitly formatted record (FILE-HEADER included). *)
+Theorem C04_api_records_decode : forall l ps hc w st' bs,
+  let st := snd (run_actions ps b_init l) in
+  write hc st w = (st', OK bs) ->
+  let cfg := {| sul_seq := w_seq w; sul_vrl := w_vrl w; sul_id := w_ident w |} in
+  exists lrds, read_logical cfg bs = Some lrds.
+Proof. intros l ps hc w st' bs st H cfg. exact (proj2 (every_written_file_is_readable l ps hc w st' bs H)). Qed.
+
 Print Assumptions C04_grammar.
 Print Assumptions C04_attribute.
 Print Assumptions C04_value.
 Print Assumptions C04_empty_set.
 Print Assumptions C04_reachable_wf.
+Print Assumptions C04_api_records_decode.
